@@ -37,6 +37,17 @@ func (sub *Subscription) Next(ctx context.Context) (*Message, error) {
 		return msg, nil
 	case <-ctx.Done():
 		return nil, ctx.Err()
+	case <-sub.ctx.Done():
+		// the pubsub instance has been shut down: hand out what is still buffered, then report it
+		select {
+		case msg, ok := <-sub.ch:
+			if !ok {
+				return msg, sub.err
+			}
+			return msg, nil
+		default:
+			return nil, sub.ctx.Err()
+		}
 	}
 }
 
